@@ -31,7 +31,7 @@ CHECKS = {
         "Ext4Abs.Consistent evaluated by TLC on projections (independent reader, own crc32c/crc16) of images produced by mke2fs, debugfs -w, tune2fs (-U, csum seed, csum off/on), resize2fs and e2fsck -fyD "
         "on 12 feature profiles. (b) CsumCoverage.tla states per object type which bytes the format covers (TLC checks it against the format's length formulas); one bit of a covered / boundary byte of a live "
         "superblock, descriptor, bitmap, inode, extent block, directory leaf, htree node, xattr block, MMP block is flipped; the reader says whether the stored checksum is stale; e2fsck -fn and the "
-        "library read path of that object type (harness/csumdrv.c) must both detect; TLC decides every line (Trace_CsumCoverage) and reports reader/spec disagreement as check-broken.",
+        "library read path of that object type (harness/csumdrv.c) must both detect; TLC decides every line (Trace_CsumCoverage) and reports reader/spec disagreement as check-broken. CsumUniverse.tla adds the geometry catalogue (descriptor 32/64/128 x inode 128/256/512 x crc16/crc32c), a dependency catalogue (which inputs enter each object's checksum, which a tool operation changes: Required(op, kind) pre-states) and tool-written journals (debugfs jo/jw/jc, tune2fs -J: csum v0-v3, escaped blocks, full descriptor/revoke blocks) recomputed by the independent journal decoder.",
    note="Level 'other' because the decisive recomputation for clause (a) sits in the observation layer (python reader), TLA+ only states the invariant; CRC reference limited to short buffers "
         "(TLC cannot fold kilobytes). Truncated (16-bit) checksum collisions are excluded from clause (b) obligations. Journal descriptor/commit/revoke block checksums are covered by C03's damaged journals, "
         "not here. Two known findings: the library never reports a group-descriptor checksum mismatch; e2fsck -fn reports it but exits 0 (declined pass-0 problem forgotten).",
@@ -91,7 +91,7 @@ CHECKS.update({
         "DurableAfterFlush, ErrorReported, refinement) and by simulation at the real constants K=8; seeded histories run through the real unix_io_manager (harness/iodrv.c) under 10 channel "
         "configurations incl. injected device write failures; every call (arguments, return, data tags, the 8 cache slots via hook H1, device events, backing file) is validated by TLC against "
         "Trace_UnixIoCache. Threads: TLC checks BitmapLoad.tla (partition formula, lock protocol, all interleavings, termination); harness/bmload.c loads bitmaps with 1..16 threads under "
-        "schedule perturbation, result must equal the single-threaded load and hook H3's events must be a behaviour of Trace_BitmapLoad.",
+        "schedule perturbation, result must equal the single-threaded load and hook H3's events must be a behaviour of Trace_BitmapLoad. StackedIo.tla transcribes undo_io's entry points as a machine of nested calls over the cache model and the undo file (OuterCoherent, OuterDurable, OuterErrorReported; faults on either store); BitmapLoad.tla models failing reader threads and the join loop (FailsIffThreadFailed, ResultScheduleIndependent) and damaged images are loaded at every thread position.",
    note="Trusted: TLC, hooks H1/H3 (read-only), iotrace.so fault injection. Data races are observed through H3's held/inside flags under perturbed schedules, not proven absent for every schedule of "
         "the real code (the spec covers all interleavings; the binding is by sampled schedules). Block-device paths (BLKDISCARD) unreachable in the sandbox.",
    technique="TLA+ refinement model checking (TLC, exhaustive + simulation) + trace validation of real unix_io histories and threaded bitmap loads"),
@@ -104,7 +104,7 @@ CHECKS.update({
         "histories run through undo_io_manager over unix_io (harness/undodrv.c), then the real e2undo; every call is a line (undo file as found on disk by the driver's own reader) validated by "
         "TLC against Trace_UndoIo with all invariants after every line. Tool level: every tool with -z, single runs and chains into one undo file, recorded by iotrace.so on device and undo file "
         "and validated against Trace_UndoRun (write-ahead order, exactly once, unit), then e2undo must restore the device byte-exactly. Damage sweep: bit flips over checksummed bytes of undo "
-        "files must be refused without any write.",
+        "files must be refused without any write. Every line of every history must be a step of the literal model (a failing property invariant no longer stops validation: PROPFAIL lines; QuietOk: no active deviation implies U1-U3); AppendPos checks the append position of reopened files; directed short-key chains over device sizes of every residue; UndoRunUniv.tla enumerates the tool universe (operation x base x image state incl. needs_recovery / orphans / restart x device tail).",
    note="Trusted: TLC, harness/undodrv.c's reader of the undo format, iotrace.so. Two unrepaired deviations of the tree (DevAbsTiling, DevChanUnits: their repair changes what tests/u_mke2fs_opt_offset "
         "documents) are known findings: conformance runs against the specification with these two switched on, a history in which a property invariant then fails is reported as the known finding, "
         "a history the literal model does not explain is a VIOLATION; in the 8 listed tool scenarios the first invariant failure hides later events of the same scenario.",
@@ -115,7 +115,7 @@ CHECKS.update({
    text="Fsck.tla is a tiny design model of e2fsck passes 1-5 (TLC: one repair run over every state reachable by <= 2 (thorough 3) catalogue corruptions ends in a state the read-only run accepts; the "
         "design mutant 'pass 5 repairs the bitmap in memory only' is caught). Corrupt.tla is the closed universe (6 296 catalogue entries, 780 interacting pairs, closed triples) enumerated by TLC. "
         "Conformance: every universe element is concretised through the independent reader's location map on 15 base profiles, the real `e2fsck -fy -E problem_log` then `e2fsck -fn -E problem_log` run, "
-        "and TLC (Trace_Tools, C01_Holds: Success(exit1) => exit2 = 0 /\\ problems2 = <<>>) decides every line.",
+        "and TLC (Trace_Tools, C01_Holds: Success(exit1) => exit2 = 0 /\\ problems2 = <<>>) decides every line. Keys of known findings are layout-free (profile, recipe class, ordered problem codes with inode numbers); quick can only select elements the thorough tier runs completely.",
    note="Trusted: TLC, gen/corrupt.py (checksum fixers self-tested: recomputation on a pristine object is the identity), e2fsck's own problem log as the failure signature. 36 known findings keyed by the "
         "second run's problem signature (clusters: quota usage after an inode clear, invalid symlink + filetype, bitmap differences after extent-count repairs, resize-inode repeats, i_size flip-flop). "
         "Quick is a seeded subset (~1 700 elements), thorough the whole universe (48 094 lines). Fsck.tla is not bound to the code line by line.",
@@ -124,7 +124,7 @@ CHECKS.update({
    text="Ext4Abs.tla states the ext4 consistency invariants independently of libext2fs (InRange, NotFixedMeta, SingleOwner, BitmapsExact, GroupCounts, Links, Shapes, Csums); Fsck.tla (design model) is "
         "checked by TLC for `FsckN clean <=> Consistent` on every state reachable by <= 2 corruptions, with design mutants that must break it. Conformance: for every element of the TLC-enumerated "
         "corruption universe the real `e2fsck -fn` runs on the corrupted copy, the independent reader projects the same bytes, and TLC (Trace_Tools, TFsckN) evaluates FailedConjuncts(st0) and "
-        "C02_Holds == exit = 0 => Consistent on the logged line.",
+        "C02_Holds == exit = 0 => Consistent on the logged line. C02Closed adds bitmap pointers relocated onto fixed metadata of earlier and later groups and resize-inode map entries; C02's own tool-built htree images carry names >= 0x80 under every hash version x signedness.",
    note="Trusted: TLC, reader/ext4read.py (cross-validated against e2fsck -fn on the 232 images of the repository's suite and 200 mutated images), gen/corrupt.py. A state the reader cannot produce is "
         "'unknown' (counted, never a violation). Violations are restricted to the rule classes the property text lists (Ext4Abs!Shapes / Links are stricter). One known finding (out-of-range i_file_acl on "
         "inodes no directory entry names).",
@@ -171,7 +171,7 @@ CHECKS.update({
         "to MaxSteps that the backup set is exactly the format's, every prescribed copy is current after every tool and recovery from any prescribed location restores the primary. Conformance: the "
         "universe (geometries x tool sequences) is enumerated by the spec; every sequence runs with the real tools on small populated images; every candidate backup location is read by an independent "
         "parser after every step; then for every prescribed location the primary superblock and descriptors are zeroed and `e2fsck -fy -b LOC -B BS` (plain e2fsck for the default group size), "
-        "`e2fsck -fn` and the reader's tree digest are logged; TLC decides every line against Trace_Backups.",
+        "`e2fsck -fn` and the reader's tree digest are logged; TLC decides every line against Trace_Backups. BackupSearch.tla / Backups.tla transcribe get_backup_sb (loop over block sizes, group-size guess, probed groups) and the universe ranges over every block size 1k..64k with plain e2fsck and -b recovery, incl. descriptor-only damage.",
    note="Trusted: TLC, lib/sbparse.py + the check's descriptor parser, the reader's tree digest. Block sizes 1k/2k/4k with small -g; meta_bg, sparse_super2 (0/1/2 backups), flex_bg, 64bit.",
    technique="TLA+ model of backup placement and refresh rules (TLC) + trace validation of real tool sequences and recoveries from every backup location"),
 })
@@ -182,7 +182,7 @@ CHECKS.update({
         "steps enabled TLC must find it violated). Conformance: an ASan+UBSan build of the current tree runs e2fsck -n/-p/-y, debugfs read-only requests, dumpe2fs, tune2fs -l, resize2fs -P, e2image, "
         "e2undo, e2freefrag over a closed seeded universe (C06Universe.tla: structured single/multi-field corruptions of every metadata object class of 15 profiles through the reader's location map, "
         "damaged journals, undo files, qcow2 images, external journal, raw byte strings, byte mutations); every run is two trace lines {start} {exit, signal, timeout, sanitizer report kinds} validated "
-        "by TLC against Trace_ToolExit; failing runs are grouped by signature, re-run alone, minimised and reported.",
+        "by TLC against Trace_ToolExit; failing runs are grouped by signature, re-run alone, minimised and reported. C06Readers.tla states, per reader (e2undo header/keys, qcow2 header, summary counters under resize2fs -P, journal rings), the bounds the code compares a field with and a catalogue of values on / around / between those bounds, concretised with checksums recomputed (multi-field corruptions).",
    note="Level exploration: sanitizers are an observation amplifier; no report is no proof of absence. 15 defects found on the pinned tree were repaired (9 fix: commits); three UBSan kinds outside the "
         "property's list (alignment, signed overflow in offset arithmetic, shift exponent) are known findings. Time bound = 20 s CPU of the tool process. Each tier is a seeded sample of the catalogue.",
    technique="TLA+ tool-run contract (TLC) + trace validation of sanitizer-instrumented tool runs over a spec-defined corruption catalogue"),
